@@ -16,7 +16,8 @@ from ..worlds import pipeline as P
 PROBES = ["workers>1", "switches>0", "multi_file", "unequal_file_sizes", "parquet", "subsampled", "cap_not_binding",
           "pred_chunks>=2", "train_chunks>=2", "switch_in_get_rows", "switch_in_predict_fold",
           "scan_only_key", "four_col_key", "multi_psm_spectra", "fallback_best_feature",
-          "brew_raised", "fold_without_accept", "dup_scan_other_mass", "pct_schedule", "pred_chunk_lacks_fold"]
+          "brew_raised", "fold_without_accept", "dup_scan_other_mass", "pct_schedule", "pred_chunk_lacks_fold",
+          "proba_only_learner"]
 
 
 def make_scenario(prop, seed):
@@ -38,7 +39,7 @@ def make_scenario(prop, seed):
         cap = n_rows_guess * 3
     thr = rng.choice([0.1037, 0.2113, 0.2113, 0.3071])
     cfg = {
-        "learner": rng.choice(["rlda", "rlda", "olda"]),
+        "learner": rng.choice(["rlda", "rlda", "olda", "plda"]) if prop == "C02" else rng.choice(["rlda", "rlda", "olda"]),
         "folds": folds,
         "test_fdr": thr,
         "train_fdr": rng.choice(datagen.THRESHOLDS[1:]),
@@ -88,8 +89,15 @@ def _collect(models, tables):
         for e in getattr(est, "fit_log_", []):
             fit_tags.update(e["tags"])
         ptags, praw = [], []
+        seen_calls = set()
         for e in getattr(est, "pred_log_", []):
             if e["phase"] == "predict":
+                # mokapot may ask a predict_proba-only estimator twice for the same rows (_get_scores calls it again
+                # after inspecting the shape): an identical repeated call is not a second scoring
+                key = (tuple(e["tags"]), tuple(e["out"]))
+                if key in seen_calls:
+                    continue
+                seen_calls.add(key)
                 ptags.extend(e["tags"])
                 praw.extend(e["out"])
         out.append({"fold": m.fold, "fit": fit_tags, "ptags": ptags, "praw": praw})
@@ -122,6 +130,7 @@ def run_scenario(scn, workdir, want):
         "scan_only_key": int(len(spec_cols) == 1),
         "four_col_key": int(len(spec_cols) == 4),
         "pct_schedule": int((scn.get("sched") or {}).get("mode") == "pct"),
+        "proba_only_learner": int(cfg["learner"] == "plda"),
         "dup_scan_other_mass": int(bool(scn["data"].get("dup_scan_frac")) and "ExpMass" in scn["data"]["spec_extra"]),
         "pred_chunk_lacks_fold": int(kn.get("CHUNK_SIZE_ROWS_PREDICTION", 10**9) < 2 * cfg["folds"]),
     }
